@@ -195,7 +195,7 @@ def check(ctx):
     share(ctx, 'C19', 'R8/C19.', ['R4.mpi_result', 'R4.mpi_refinement'])
     # weights written to a checkpoint come back as weights: reader and writer agree on the order of
     # the (adjustment datum, weight) pairs (shared with C05)
-    share(ctx, 'C05', 'R9/C05.', ['i.sequence', 'vii.'])
+    share(ctx, 'C05', 'R9/C05.', ['i.sequence', 'vii.', 'iii.'])
 
 
 
